@@ -159,7 +159,7 @@ impl simcore::Engine for ClientEngine {
         match self.prop {
             "C16" => vec!["read_timeout_hit", "several_segments_in_one_read", "eof_seen_by_client", "airplanes_table_judged", "whole_feed_processed_at_end", "reconnect_with_aircraft_retained", "clean_exit_on_disconnect", "1090_output_equals_feed"],
             "C17" => vec!["three_events_in_one_poll_window", "quit_during_connect_wait", "drag_event", "enter_on_airplanes_tab", "down_on_airplanes_tab", "aircraft_expire_during_run", "quit_consumed_and_clean_exit", "invalid_command_line_judged", "operator_events_after_reconnect", "every_heading_drawn_on_the_map"],
-            "C18" => vec!["airplanes_tab_judged", "stats_tab_judged", "map_tab_judged", "receiver_marker_at_centre", "aircraft_label_found", "aircraft_in_ne_quadrant", "aircraft_in_nw_quadrant", "aircraft_in_se_quadrant", "aircraft_in_sw_quadrant", "proportionality_judged", "details_filled", "details_blank", "row_selected_shifted_columns", "aircraft_expired_from_table", "map_compared_before_controls_and_after_reset", "table_unchanged_after_view_controls", "centred_aircraft_judged", "centred_aircraft_judged_after_8_zoom_ins", "judged_after_backlog_of_10000_lines", "table_longer_than_one_page"],
+            "C18" => vec!["airplanes_tab_judged", "stats_tab_judged", "map_tab_judged", "receiver_marker_at_centre", "aircraft_label_found", "aircraft_in_ne_quadrant", "aircraft_in_nw_quadrant", "aircraft_in_se_quadrant", "aircraft_in_sw_quadrant", "proportionality_judged", "details_filled", "details_blank", "row_selected_shifted_columns", "aircraft_expired_from_table", "map_compared_before_controls_and_after_reset", "table_unchanged_after_view_controls", "centred_aircraft_judged", "centred_aircraft_judged_after_8_zoom_ins", "judged_after_backlog_of_10000_lines", "table_longer_than_one_page", "aircraft_re_added_after_expiry"],
             _ => vec![],
         }
     }
